@@ -212,8 +212,13 @@ pub fn seed_dns(resolver: &DnsResolver, extra: &[IpAddr]) {
         resolver.verif_seed(IpAddr::V4(a), DnsEntry::Resolved(Resolved::WithAsInfo(IpAddr::V4(a), vec![hostname(a)], asinfo(a))));
     }
     for a in extra {
-        resolver.verif_seed(*a, DnsEntry::Resolved(Resolved::Normal(*a, vec![format!("other-{}.test", hash_ip(*a))])));
+        resolver.verif_seed(*a, DnsEntry::Resolved(Resolved::Normal(*a, vec![other_hostname(*a)])));
     }
+}
+
+/// The seeded reverse-DNS name of a source / target address.
+pub fn other_hostname(a: IpAddr) -> String {
+    format!("other-{}.test", hash_ip(a))
 }
 
 fn hash_ip(a: IpAddr) -> u64 {
